@@ -60,10 +60,13 @@ type c13Op struct {
 }
 
 type c13Scenario struct {
-	Mode            string  `json:"mode"` // fallback (production default) | classic | utf8
-	ResolveTimeoutS int     `json:"resolve_timeout_s"`
-	GCIntervalS     int     `json:"gc_interval_s"`
-	Ops             []c13Op `json:"ops"`
+	Mode            string `json:"mode"` // fallback (production default) | classic | utf8
+	ResolveTimeoutS int    `json:"resolve_timeout_s"`
+	GCIntervalS     int    `json:"gc_interval_s"`
+	// PhaseNs shifts every instant of the history (receive times and submitted times alike) by a sub-millisecond
+	// amount: the API speaks milliseconds, the store nanoseconds
+	PhaseNs int64   `json:"phase_ns,omitempty"`
+	Ops     []c13Op `json:"ops"`
 }
 
 // ----------------------------------------------------------------- generator
@@ -108,6 +111,9 @@ func genC13(t *rapid.T) c13Scenario {
 		Mode:            rapid.SampledFrom([]string{"fallback", "fallback", "fallback", "classic", "utf8"}).Draw(t, "mode"),
 		ResolveTimeoutS: rapid.SampledFrom([]int{30, 120, 300}).Draw(t, "resolve_timeout"),
 		GCIntervalS:     rapid.SampledFrom([]int{60, 300, 1800}).Draw(t, "gc_interval"),
+	}
+	if c13P(t, 40, "phase") {
+		sc.PhaseNs = rapid.SampledFrom([]int64{1, 499_999, 500_000, 500_001, 999_000, 999_999, 123_456}).Draw(t, "phaseNs")
 	}
 	nIdent := rapid.IntRange(1, 3).Draw(t, "nIdent")
 	idents := make([]map[string]string, nIdent)
@@ -272,8 +278,6 @@ type c13GotAlert struct {
 	} `json:"status"`
 }
 
-const c13TimeFmt = "2006-01-02T15:04:05.000Z"
-
 func c13SetMode(mode string) error {
 	var ff featurecontrol.Flagger = featurecontrol.NoopFlags{}
 	var err error
@@ -380,13 +384,13 @@ func (h *c13Harness) get(filter []ref.Matcher) {
 			h.violate("get-missing"+kindSuffix, "alert %v (model: start %s end %s) is not returned (filter %v)", a.Labels, h.rel(stored.Start), h.rel(stored.End), filter)
 			continue
 		}
-		if !g.StartsAt.Equal(a.Start) {
+		if !g.StartsAt.Equal(a.Start.Truncate(time.Millisecond)) { // the API shows milliseconds
 			h.violate("startsAt", "alert %v: startsAt %s, model %s", a.Labels, h.rel(g.StartsAt), h.rel(a.Start))
 		}
-		if !g.EndsAt.Equal(a.End) {
+		if !g.EndsAt.Equal(a.End.Truncate(time.Millisecond)) {
 			h.violate("endsAt", "alert %v: endsAt %s, model %s (timeout=%v)", a.Labels, h.rel(g.EndsAt), h.rel(a.End), a.Timeout)
 		}
-		if !g.UpdatedAt.Equal(a.Updated) {
+		if !g.UpdatedAt.Equal(a.Updated.Truncate(time.Millisecond)) {
 			h.violate("updatedAt", "alert %v: updatedAt %s, model %s", a.Labels, h.rel(g.UpdatedAt), h.rel(a.Updated))
 		}
 		if !c13SameMap(g.Annotations, a.Annotations) {
@@ -470,6 +474,7 @@ func execC13(sc c13Scenario) (res pbt.Result) {
 			return
 		}
 		defer c13SetMode("classic") // the process default
+		time.Sleep(time.Duration(sc.PhaseNs))
 		epoch := time.Now()
 		reg := prometheus.NewRegistry()
 		rec := eventrecorder.NopRecorder()
@@ -541,11 +546,11 @@ func execC13(sc c13Scenario) (res pbt.Result) {
 					}
 					if a.StartMs != nil {
 						ra.StartsAt = at(*a.StartMs)
-						ja["startsAt"] = ra.StartsAt.UTC().Format(c13TimeFmt)
+						ja["startsAt"] = ra.StartsAt.UTC().Format(time.RFC3339Nano)
 					}
 					if a.EndMs != nil {
 						ra.EndsAt = at(*a.EndMs)
-						ja["endsAt"] = ra.EndsAt.UTC().Format(c13TimeFmt)
+						ja["endsAt"] = ra.EndsAt.UTC().Format(time.RFC3339Nano)
 					}
 					if a.EndMs != nil && *a.EndMs == nowMs {
 						// end == receive instant: not decided (boundary), not sent
